@@ -1,10 +1,459 @@
 package symx
 
-import "golang.org/x/tools/go/ssa"
+// Guarded merging of pure regions (DESIGN.md 1.2): at a symbolic If whose two
+// arms are short, call-free, allocation-free regions that meet again at the
+// immediate post-dominator (or both return), both arms are executed
+// speculatively and their effects are combined with ite(c, then, else) instead
+// of forking.  Anything unexpected (a nested symbolic branch, an instruction
+// outside the whitelist, a run-time panic, a non-scalar difference) aborts the
+// merge, rolls memory back and the engine forks as usual, so merging is an
+// optimisation only.
+
+import (
+	"go/types"
+	"sync"
+
+	"golang.org/x/tools/go/ssa"
+
+	"verif/engine/smt"
+)
+
+type mergeAbort struct{ why string }
+
+const mergeMaxInstrs = 64
+
+var (
+	pdomMu    sync.Mutex
+	pdomCache = map[*ssa.Function]map[*ssa.BasicBlock]*ssa.BasicBlock{}
+)
+
+// ipdom returns the immediate post-dominator of every block of fn (nil for
+// blocks whose only post-dominator is the virtual exit).
+func ipdomOf(fn *ssa.Function) map[*ssa.BasicBlock]*ssa.BasicBlock {
+	pdomMu.Lock()
+	defer pdomMu.Unlock()
+	if m, ok := pdomCache[fn]; ok {
+		return m
+	}
+	n := len(fn.Blocks)
+	// pdom sets as bitsets over block indices; index n = virtual exit
+	words := (n + 1 + 63) / 64
+	full := make([]uint64, words)
+	for i := 0; i <= n; i++ {
+		full[i/64] |= 1 << uint(i%64)
+	}
+	sets := make([][]uint64, n+1)
+	for i := 0; i < n; i++ {
+		sets[i] = append([]uint64{}, full...)
+	}
+	sets[n] = make([]uint64, words)
+	sets[n][n/64] |= 1 << uint(n%64)
+	succs := func(b *ssa.BasicBlock) []int {
+		if len(b.Succs) == 0 {
+			return []int{n}
+		}
+		out := make([]int, len(b.Succs))
+		for i, s := range b.Succs {
+			out[i] = s.Index
+		}
+		return out
+	}
+	for changed := true; changed; {
+		changed = false
+		for i := n - 1; i >= 0; i-- {
+			b := fn.Blocks[i]
+			nw := append([]uint64{}, full...)
+			for _, s := range succs(b) {
+				for w := range nw {
+					nw[w] &= sets[s][w]
+				}
+			}
+			nw[i/64] |= 1 << uint(i%64)
+			for w := range nw {
+				if nw[w] != sets[i][w] {
+					changed = true
+				}
+			}
+			sets[i] = nw
+		}
+	}
+	has := func(s []uint64, k int) bool { return s[k/64]>>uint(k%64)&1 == 1 }
+	count := func(s []uint64) int {
+		c := 0
+		for k := 0; k <= n; k++ {
+			if has(s, k) {
+				c++
+			}
+		}
+		return c
+	}
+	res := map[*ssa.BasicBlock]*ssa.BasicBlock{}
+	for i := 0; i < n; i++ {
+		// immediate post-dominator: the strict post-dominator with the largest pdom set
+		best, bestc := -1, -1
+		for k := 0; k < n; k++ {
+			if k != i && has(sets[i], k) {
+				if c := count(sets[k]); c > bestc {
+					best, bestc = k, c
+				}
+			}
+		}
+		if best >= 0 {
+			res[fn.Blocks[i]] = fn.Blocks[best]
+		}
+	}
+	pdomCache[fn] = res
+	return res
+}
+
+type armResult struct {
+	writes  map[*value]value // cells written -> final value
+	order   []*value
+	last    *ssa.BasicBlock // block from which the join was entered
+	phiIn   []value         // values flowing into the join block's phis from this arm
+	ret     value
+	returns bool
+}
+
+type envOld struct {
+	k       ssa.Value
+	v       value
+	present bool
+}
+
+// runArm speculatively executes blocks from start until block join is reached
+// (or a Return when join is nil).  Memory writes are logged and rolled back.
+func (i *interpreter) runArm(fr *frame, from, start, join *ssa.BasicBlock) (res *armResult, ok bool) {
+	p := i.p
+	res = &armResult{writes: map[*value]value{}}
+	olds := map[*value]value{}
+	var oldOrder []*value
+	envLogged := map[ssa.Value]bool{}
+	var envOlds []envOld
+	logEnv := func(k ssa.Value) {
+		if !envLogged[k] {
+			envLogged[k] = true
+			v, present := fr.env[k]
+			envOlds = append(envOlds, envOld{k, v, present})
+		}
+	}
+	defer func() {
+		// roll memory and SSA registers back in every case (an arm may re-execute
+		// blocks that ran before the branch, e.g. a loop header)
+		for k := len(oldOrder) - 1; k >= 0; k-- {
+			*oldOrder[k] = olds[oldOrder[k]]
+		}
+		for k := len(envOlds) - 1; k >= 0; k-- {
+			if envOlds[k].present {
+				fr.env[envOlds[k].k] = envOlds[k].v
+			} else {
+				delete(fr.env, envOlds[k].k)
+			}
+		}
+		p.speculating--
+		if r := recover(); r != nil {
+			if isSentinel(r) {
+				panic(r)
+			}
+			ok = false
+		}
+	}()
+	p.speculating++
+	prev, cur := from, start
+	visited := map[*ssa.BasicBlock]bool{from: true}
+	steps := 0
+	for {
+		if cur == join && join != nil {
+			res.last = prev
+			// the values this arm feeds into the join's phis (read before the registers are rolled back)
+			pi := -1
+			for k, pb := range join.Preds {
+				if pb == prev {
+					pi = k
+				}
+			}
+			if pi < 0 {
+				return nil, false
+			}
+			for _, ins := range join.Instrs {
+				ph, isPhi := ins.(*ssa.Phi)
+				if !isPhi {
+					break
+				}
+				res.phiIn = append(res.phiIn, fr.get(ph.Edges[pi]))
+			}
+			break
+		}
+		if visited[cur] {
+			return nil, false
+		}
+		visited[cur] = true
+		// phis of an inner block
+		var phiVals []value
+		var phis []*ssa.Phi
+		pi := -1
+		for k, pb := range cur.Preds {
+			if pb == prev {
+				pi = k
+			}
+		}
+		for _, ins := range cur.Instrs {
+			ph, isPhi := ins.(*ssa.Phi)
+			if !isPhi {
+				break
+			}
+			phis = append(phis, ph)
+			phiVals = append(phiVals, fr.get(ph.Edges[pi]))
+		}
+		for k, ph := range phis {
+			logEnv(ph)
+			fr.env[ph] = phiVals[k]
+		}
+		next := (*ssa.BasicBlock)(nil)
+		for _, ins := range cur.Instrs[len(phis):] {
+			steps++
+			if steps > mergeMaxInstrs {
+				return nil, false
+			}
+			p.stats.Steps++
+			if v, isVal := ins.(ssa.Value); isVal {
+				logEnv(v)
+			}
+			switch in := ins.(type) {
+			case *ssa.DebugRef:
+			case *ssa.BinOp, *ssa.Convert, *ssa.ChangeType, *ssa.Extract, *ssa.FieldAddr, *ssa.Field, *ssa.IndexAddr, *ssa.Index, *ssa.ChangeInterface:
+				visitInstr(fr, ins)
+			case *ssa.UnOp:
+				if in.Op.String() == "<-" {
+					return nil, false
+				}
+				visitInstr(fr, ins)
+			case *ssa.Store:
+				addr := fr.get(in.Addr).(*value)
+				if addr == nil {
+					return nil, false
+				}
+				t := mustDeref(in.Addr.Type())
+				switch t.Underlying().(type) {
+				case *types.Struct, *types.Array:
+					return nil, false // aggregate stores are not merged
+				}
+				if _, seen := olds[addr]; !seen {
+					olds[addr] = *addr
+					oldOrder = append(oldOrder, addr)
+				}
+				*addr = fr.get(in.Val)
+				if _, seen := res.writes[addr]; !seen {
+					res.order = append(res.order, addr)
+				}
+				res.writes[addr] = *addr
+			case *ssa.Jump:
+				next = cur.Succs[0]
+			case *ssa.If:
+				cv := fr.get(in.Cond)
+				b, isBool := cv.(bool)
+				if !isBool {
+					return nil, false // nested symbolic branch
+				}
+				if b {
+					next = cur.Succs[0]
+				} else {
+					next = cur.Succs[1]
+				}
+			case *ssa.Return:
+				if join != nil {
+					return nil, false
+				}
+				switch len(in.Results) {
+				case 0:
+					res.ret = nil
+				case 1:
+					res.ret = fr.get(in.Results[0])
+				default:
+					var tv tuple
+					for _, r := range in.Results {
+						tv = append(tv, fr.get(r))
+					}
+					res.ret = tv
+				}
+				res.returns = true
+				return res, true
+			default:
+				return nil, false
+			}
+		}
+		if next == nil {
+			return nil, false
+		}
+		prev, cur = cur, next
+	}
+	return res, true
+}
+
+func isScalar(v value) bool {
+	switch v.(type) {
+	case bool, int, int8, int16, int32, int64, uint, uint8, uint16, uint32, uint64, uintptr, sym:
+		return true
+	}
+	return false
+}
+
+// iteValue returns ite(c, a, b) for scalars of the same kind; ok=false otherwise.
+func (p *Path) iteValue(c *smt.Term, a, b value) (value, bool) {
+	if !isScalar(a) || !isScalar(b) {
+		// identical non-scalars (same pointer, same slice header) need no merge
+		return nil, false
+	}
+	ta, ka := p.termOf(a)
+	tb, kb := p.termOf(b)
+	if ka != kb || ta.W != tb.W {
+		return nil, false
+	}
+	return box(p.ctx.Ite(c, ta, tb), ka), true
+}
+
+func sameValue(a, b value) (same bool) {
+	defer func() {
+		if recover() != nil {
+			same = false
+		}
+	}()
+	return a == b
+}
+
+func (p *Path) mergeVal(c *smt.Term, a, b value) (value, bool) {
+	if ta, ok := a.(tuple); ok {
+		tb, ok2 := b.(tuple)
+		if !ok2 || len(ta) != len(tb) {
+			return nil, false
+		}
+		out := make(tuple, len(ta))
+		for k := range ta {
+			v, ok := p.mergeVal(c, ta[k], tb[k])
+			if !ok {
+				return nil, false
+			}
+			out[k] = v
+		}
+		return out, true
+	}
+	if isScalar(a) && isScalar(b) {
+		return p.iteValue(c, a, b)
+	}
+	if a == nil && b == nil {
+		return nil, true
+	}
+	if sameValue(a, b) {
+		return a, true
+	}
+	return nil, false
+}
 
 // tryMerge executes both arms of a symbolic If under a guard when the region
-// is pure (see DESIGN.md 1.2).  Returns true when it handled the branch and
-// set fr.block to the join block.
+// is pure.  Returns true when it handled the branch: either fr.block is the
+// join block with its phis already assigned, or the frame has returned.
 func (i *interpreter) tryMerge(fr *frame, instr *ssa.If, c sym) bool {
-	return false
+	p := i.p
+	if p.noMerge || p.watching > 0 || p.inExists {
+		return false
+	}
+	cond := p.resolve(c.t)
+	if cond.IsConst() {
+		return false
+	}
+	blk := instr.Block()
+	join := ipdomOf(fr.fn)[blk]
+	a1, ok := i.runArm(fr, blk, blk.Succs[0], join)
+	if !ok {
+		return false
+	}
+	a2, ok := i.runArm(fr, blk, blk.Succs[1], join)
+	if !ok {
+		return false
+	}
+	if a1.returns != a2.returns {
+		return false
+	}
+	// merged memory
+	type wr struct {
+		addr *value
+		v    value
+	}
+	var writes []wr
+	seen := map[*value]bool{}
+	for _, lst := range [][]*value{a1.order, a2.order} {
+		for _, addr := range lst {
+			if seen[addr] {
+				continue
+			}
+			seen[addr] = true
+			v1, w1 := a1.writes[addr]
+			if !w1 {
+				v1 = *addr
+			}
+			v2, w2 := a2.writes[addr]
+			if !w2 {
+				v2 = *addr
+			}
+			mv, ok := p.mergeVal(cond, v1, v2)
+			if !ok {
+				return false
+			}
+			writes = append(writes, wr{addr, mv})
+		}
+	}
+	if a1.returns {
+		rv, ok := p.mergeVal(cond, a1.ret, a2.ret)
+		if !ok {
+			return false
+		}
+		if fr.fn.Recover != nil || fr.defers != nil {
+			// keep defer handling simple: do not merge returns of functions with defers
+			return false
+		}
+		for _, w := range writes {
+			if i.p.foot != nil {
+				i.p.foot.write(w.addr)
+			}
+			*w.addr = w.v
+		}
+		fr.result = rv
+		fr.block = nil
+		p.stats.Merged++
+		fr.mergedReturn = true
+		return true
+	}
+	// phis of the join block
+	var phis []*ssa.Phi
+	for _, ins := range join.Instrs {
+		ph, isPhi := ins.(*ssa.Phi)
+		if !isPhi {
+			break
+		}
+		phis = append(phis, ph)
+	}
+	if len(a1.phiIn) != len(phis) || len(a2.phiIn) != len(phis) {
+		return false
+	}
+	vals := make([]value, len(phis))
+	for k := range phis {
+		mv, ok := p.mergeVal(cond, a1.phiIn[k], a2.phiIn[k])
+		if !ok {
+			return false
+		}
+		vals[k] = mv
+	}
+	for _, w := range writes {
+		if i.p.foot != nil {
+			i.p.foot.write(w.addr)
+		}
+		*w.addr = w.v
+	}
+	for k, ph := range phis {
+		fr.env[ph] = vals[k]
+	}
+	fr.prevBlock, fr.block = a1.last, join
+	fr.skipPhis = true
+	p.stats.Merged++
+	return true
 }
